@@ -79,7 +79,12 @@ def run_cases(ctx, exe, orac, cases, prop, label):
         if any(l.startswith(("STEPLIMIT", "DEADLOCK")) for l in lines[-40:]):
             ctx.count("model-skip:run did not finish (judged by the oracle)")
             continue
-        ev, src = pipelib.to_events(prog, lines)
+        try:
+            ev, src = pipelib.to_events(prog, lines)
+        except Exception as ex:      # noqa: BLE001 -- a log the translator does not understand is a broken tie, not a crash of the check
+            ctx.broken_tie("the log -> event translator failed on a trace (internal error of the correspondence machinery)",
+                           {"error": "%s: %s" % (type(ex).__name__, ex), "program": prog})
+            continue
         if len(ev) > 30000:
             ctx.count("model-skip:trace longer than 30000 events")
             continue
